@@ -461,6 +461,9 @@ pub fn run(prop: &str, tier: &str, replay: Option<&str>) -> i32 {
         add("distribution points: one URI in two points, and twice within one point", &|st| {
             st.crl_dps = vec![vec![uri.into(), "http://other.example/crl".into()], vec![uri.into()], vec![uri.into(), uri.into()]];
         });
+        add("distribution points: URIs that differ in letter case only, within one point and across two", &|st| {
+            st.crl_dps = vec![vec!["http://crl.example/Root.crl".into(), "http://crl.example/root.crl".into()], vec!["HTTP://CRL.EXAMPLE/ROOT.CRL".into()]];
+        });
         add("extended key usages: anyExtendedKeyUsage between two others, a custom purpose last", &|st| {
             st.ekus = vec![EkuSpec::ServerAuth, EkuSpec::Any, EkuSpec::ClientAuth, EkuSpec::Other(vec![1, 3, 6, 1, 4, 1, 55555, 10])];
         });
